@@ -1294,8 +1294,8 @@ asn1c_lang_C_type_SIMPLE_TYPE(arg_t *arg) {
 			if((expr->marker.flags & (EM_DEFAULT & ~EM_INDIRECT))
 					== (EM_DEFAULT & ~EM_INDIRECT))
 				OUT("\t/* DEFAULT %s */",
-					asn1f_printable_value(
-						expr->marker.default_value));
+					asn1c_comment_safe(asn1f_printable_value(
+						expr->marker.default_value)));
 			else if((expr->marker.flags & EM_OPTIONAL)
 					== EM_OPTIONAL)
 				OUT("\t/* OPTIONAL */");
@@ -2315,7 +2315,7 @@ safe_string(const uint8_t *buf, int size) {
 	const uint8_t *end = buf + size;
 	for(; buf < end; buf++) {
 		int ch = *buf;
-		if((ch < 0x20 || ch > 0x7e) || ch == '"')
+		if((ch < 0x20 || ch > 0x7e) || ch == '"' || ch == '\\')
 			return 0;
 	}
 	return 1;
@@ -2455,11 +2455,13 @@ try_inline_default(arg_t *arg, asn1p_expr_t *expr, int out) {
             if(C99_MODE) OUT(".default_value_cmp = ");
 			OUT("&asn_DFL_%d_cmp,\t/* Compare DEFAULT \"%s\" */\n",
 				expr->_type_unique_index,
-				expr->marker.default_value->value.string.buf);
+				asn1c_comment_safe((const char *)
+				expr->marker.default_value->value.string.buf));
             if(C99_MODE) OUT(".default_value_set = ");
 			OUT("&asn_DFL_%d_set,\t/* Set DEFAULT \"%s\" */\n",
 				expr->_type_unique_index,
-				expr->marker.default_value->value.string.buf);
+				asn1c_comment_safe((const char *)
+				expr->marker.default_value->value.string.buf));
 			return 1;
 		}
 		REDIR(OT_STAT_DEFS);
